@@ -210,4 +210,5 @@ VARIANTS = [
                 "    n_posonly = len([q for q in self.old_node.params if q.kind == pytd.ParameterKind.POSONLY])\n"
                 "    for i, p in enumerate(node.params):\n"),
                (PRINTER, _SLASH, "      if i == n_posonly - 1:\n        params.append(\"/\")\n")]},
+    {"name": "twin-benign-C05-r1", "rule": "R5.24", "patch": "benign/C05-r1/patch.diff", "expect": "silent"},
 ]
